@@ -29,7 +29,7 @@ func (rt *runtime) cmplEvaluateNodeStatement(node nodeStatement) Value {
 		value := rt.cmplEvaluateNodeStatementList(node.list)
 		if value.kind == valueResult {
 			if value.evaluateBreak(labels) == resultBreak {
-				return emptyValue
+				return value.completionValue()
 			}
 		}
 		return value
@@ -116,12 +116,12 @@ func (rt *runtime) cmplEvaluateNodeStatement(node nodeStatement) Value {
 }
 
 func (rt *runtime) cmplEvaluateNodeStatementList(list []nodeStatement) Value {
-	var result Value
+	result := emptyValue
 	for _, node := range list {
 		value := rt.cmplEvaluateNodeStatement(node)
 		switch value.kind {
 		case valueResult:
-			return value
+			return value.withCompletionValue(result)
 		case valueEmpty:
 		default:
 			// We have getValue here to (for example) trigger a
@@ -152,8 +152,10 @@ resultBreak:
 				case resultReturn:
 					return value
 				case resultBreak:
+					result = value.completionValueOr(result)
 					break resultBreak
 				case resultContinue:
+					result = value.completionValueOr(result)
 					goto resultContinue
 				}
 			case valueEmpty:
@@ -228,8 +230,9 @@ func (rt *runtime) cmplEvaluateNodeForInStatement(node *nodeForInStatement) Valu
 					case resultReturn:
 						return value
 					case resultBreak:
-						return result
+						return value.completionValueOr(result)
 					case resultContinue:
+						result = value.completionValueOr(result)
 						break body
 					}
 				case valueEmpty:
@@ -285,8 +288,10 @@ resultBreak:
 				case resultReturn:
 					return value
 				case resultBreak:
+					result = value.completionValueOr(result)
 					break resultBreak
 				case resultContinue:
+					result = value.completionValueOr(result)
 					goto resultContinue
 				}
 			case valueEmpty:
@@ -343,7 +348,7 @@ func (rt *runtime) cmplEvaluateNodeSwitchStatement(node *nodeSwitchStatement) Va
 					case resultReturn:
 						return value
 					case resultBreak:
-						return emptyValue
+						return value.completionValueOr(result)
 					}
 				case valueEmpty:
 				default:
@@ -414,8 +419,10 @@ resultBreakContinue:
 				case resultReturn:
 					return value
 				case resultBreak:
+					result = value.completionValueOr(result)
 					break resultBreakContinue
 				case resultContinue:
+					result = value.completionValueOr(result)
 					continue resultBreakContinue
 				}
 			case valueEmpty:
